@@ -11,7 +11,7 @@ ATOMS = ["{{", "}}", "{{{", "}}}", "[[", "]]", "[", "]", "|", "||", "!", "!!", "
          "<math>", "</math>", "<section begin=a/>", "<noinclude/>", "<includeonly>", "http://x.y", "[http://x.y t]", "https://",
          "__TOC__", "__NOTOC__", "&amp;", "&lt;", "&#91;", "text", "word ", "A", "é", "名", ":", ";", "#REDIRECT", "~~~~",
          "{{a|x}}", "{{#if:x|y}}", "{{PAGENAME}}", "[[a|b]]", "[[File:x.png|thumb|c]]", "{{{1|d}}}", "<", ">", "/", "\t", "-{", "}-",
-         "== H ==\n", "a=b", "style=\"c\"", "\"", "'"]
+         "<nowiki></nowiki>", "<nowiki></nowiki>", "<!-- c -->", "== H ==\n", "a=b", "style=\"c\"", "\"", "'"]
 MAGIC = "\U00102041"
 
 
